@@ -23,7 +23,9 @@ LEVEL_TEXT = ("Held on the executions observed: ~25k (quick) to ~1M (thorough) g
               "model. Sampling, not a proof for unexplored histories.")
 LEVEL_NOTE = ("Trusted: vf.refs.addrmodel (self-tested), twisted.internet.task.Clock, FakeTor/Link for the TorState route. "
               "The instant of expiry itself is never judged (the generator keeps every probe strictly before or after it).")
-RULE = ("a case = an epoch, 1-4 names, an optional initial address-mappings/all listing (TorState route) and 2-16 steps, "
+RULE = ("a case = an epoch, 1-4 names, an optional initial address-mappings/all listing (TorState route; in about a third "
+        "of these cases the listing has 2-5 lines that mention a name more than once - different address and/or expiry, "
+        "NEVER before/after finite, stale lines - and the LAST line for a name is what the map must hold) and 2-16 steps, "
         "each an ADDRMAP line (local-time / EXPIRES= / CACHED= / NEVER / <error> forms, expiry offset -1 day..+30 days) or a "
         "clock advance (seconds to days, to just before / just after the next expiry, whole-second or fractional clock), "
         "or (cases without an acting listener) a burst of 2-4 lines delivered in one reactor turn, often starting with an "
@@ -52,6 +54,12 @@ ASSUMPTIONS = [
     "own test pins it (4th field = UTC expiry), so it is generated, with its own class suffix +positional-utc-form",
     "within one reactor turn a mapping that is already expired on arrival and is superseded by a later line for the same "
     "name may go unannounced (no added/expired for it); if it is the last line for the name it is judged as usual",
+    "the address-mappings/all answer is a plain list of mappings (control-spec 3.9: 'a \\r\\n-separated list of address "
+    "mappings'); nothing in the grammar promises one line per name, so listings that repeat a name are generated and read "
+    "in line order like any other sequence of mapping lines: the last line for a name is Tor's most recent word. (C Tor "
+    "keeps one table keyed by name and is not known to repeat one; the class is grammar-legal, not observed, and carries "
+    "its own key suffix +repeated-in-listing.) All lines of a listing reach the map in one reactor turn: listener "
+    "accounting has the freedom of the bursts, no in-callback comparison during delivery, no acting listener",
     "an <error> event for a live name may or may not be announced as 'expired' (either accepted); "
     "a new name whose mapping is already expired on arrival may be announced added+expired or not at all",
 ]
@@ -74,6 +82,7 @@ FLOORS = {
               "error_lines_fed": 500, "error_lines_without_keyword_on_held_name": 80,
               "error_lines_without_keyword_on_unknown_name": 120,
               "positional_form_lines_tor_in_other_zone": 300,
+              "listings_with_repeated_names": 50, "repeated_listing_names_last_line_differs_from_first": 45,
               "reach:txtorcon.addrmap:Addr.update": 5000, "reach:txtorcon.addrmap:Addr._expire": 1500,
               "reach:txtorcon.torstate:TorState._addr_map": 300},
     "thorough": {"evaluations": 80000, "lookups_compared": 1200000, "listener_calls_seen": 250000,
@@ -83,6 +92,7 @@ FLOORS = {
                  "error_lines_fed": 20000, "error_lines_without_keyword_on_held_name": 3000,
                  "error_lines_without_keyword_on_unknown_name": 5000,
                  "positional_form_lines_tor_in_other_zone": 10000,
+                 "listings_with_repeated_names": 2000, "repeated_listing_names_last_line_differs_from_first": 1800,
                  "reach:txtorcon.addrmap:Addr.update": 250000, "reach:txtorcon.addrmap:Addr._expire": 100000,
                  "reach:txtorcon.torstate:TorState._addr_map": 15000},
 }
@@ -287,6 +297,12 @@ def gen_case(rnd, route):
             model.advance(case["t0"])
     if rnd.random() < 0.5:
         case["actor"] = gen_actor(rnd, names, addrs, theme)
+    # TorState route, ~1/3 of the cases: the address-mappings/all answer mentions a name on more than
+    # one line (the grammar is a plain list of mappings; nothing promises one line per name).  All lines
+    # reach the map in one reactor turn, so - as for the bursts - no acting listener in these cases.
+    repeated = route == "state" and rnd.random() < 0.34
+    if repeated:
+        case["actor"] = None
     plan = ActorPlan(case["actor"])
 
     def fed(ev):
@@ -295,17 +311,34 @@ def gen_case(rnd, route):
         if not now_live and (was or ev["addr"] != M.ERROR):
             sim_expired(model, plan, ev["name"])
 
-    if route == "state":
+    if route == "state" and repeated:
+        focus = rnd.choice(names)
+        for j in range(rnd.choice([2, 2, 3, 3, 4, 5])):
+            if rnd.random() < (0.3 if j == 0 else 0.12):
+                # a stale line (already expired when the listing is read), as in the bursts
+                cur = model.names.get(focus)
+                ev = {"name": focus, "exp": int(model.now) - rnd.choice([1, 1, 5, 60, 3600, DAY]),
+                      "addr": cur.addr if (cur is not None and cur.addr and rnd.random() < 0.5) else rnd.choice(addrs),
+                      "form": "local"}
+            else:
+                ev = gen_event(rnd, model, names, addrs, theme, boot=True,
+                               force_name=focus if (j < 2 or rnd.random() < 0.6) else None)
+            if ev is None:
+                continue
+            model.event(ev)
+            case["boot"].append(ev)
+    elif route == "state":
         seen = set()
         for _ in range(rnd.choice([0, 0, 1, 1, 2, 3])):
             ev = gen_event(rnd, model, names, addrs, theme, boot=True)
-            if ev is not None and ev["name"] not in seen:   # a listing names each address once
+            if ev is not None and ev["name"] not in seen:   # this listing names each address once
                 seen.add(ev["name"])
                 model.event(ev)
                 case["boot"].append(ev)
-        for ev in case["boot"]:
-            if model.lookup(ev["name"]) is None:
-                sim_expired(model, plan, ev["name"])
+    if route == "state":
+        for nm in list(dict.fromkeys(ev["name"] for ev in case["boot"])):
+            if model.lookup(nm) is None:
+                sim_expired(model, plan, nm)
     nsteps = rnd.choice([2, 3, 4, 5, 6, 8, 10, 12, rnd.randint(2, 16)])
     for _ in range(nsteps):
         if case["actor"] is None and rnd.random() < 0.18:
@@ -558,9 +591,25 @@ def run_case(case, rec):
             done = []
             st.post_bootstrap.addBoth(done.append)
             am = holder["am"] = st.addrmap
+            listed = {}
             for ev in case["boot"]:
                 model.event(ev)
+                listed.setdefault(ev["name"], []).append(ev)
+            again = {nm: evs for nm, evs in listed.items() if len(evs) > 1}
+            if again:
+                # a listing that mentions a name on several lines: all of them reach the map in one
+                # reactor turn and the model is already past the last one - no in-callback comparison
+                # while the answer is being delivered (as for the bursts on this route)
+                lst.ctx["probe"] = False
+                rec.count("listings_with_repeated_names")
+                for nm, evs in again.items():
+                    lst.tags.setdefault(nm, set()).add("repeated-in-listing")
+                    rec.count("repeated_listing_lines", len(evs) - 1)
+                    if (evs[-1]["addr"], evs[-1]["exp"]) != (evs[0]["addr"], evs[0]["exp"]):
+                        rec.count("repeated_listing_names_last_line_differs_from_first")
+                    rec.seen("repeated_listing_shapes", ">".join(listing_shape(e, model.now) for e in evs))
             link.pump()
+            lst.ctx["probe"] = True
             errs = real_errors(logcap.take())
             rec.count("bootstrap_mappings", len(case["boot"]))
             if not done or done[0] is not st or link.exceptions or errs:
@@ -681,6 +730,10 @@ def run_case(case, rec):
     return reported
 
 
+def listing_shape(ev, now):
+    return "never" if ev["exp"] is None else ("stale" if ev["exp"] < now else "finite")
+
+
 def burst_acceptable(evs, was, now):
     """acceptable listener sequences for one name over several events of one reactor turn.
     Each event has the single-event semantics, except that a mapping which is already expired
@@ -777,9 +830,14 @@ def judge(case, model, am, lst, mark, step, rec, V, state, names, gone=(), trans
         per.setdefault(nm, []).append((what, ip))
     expect = {}                # name -> list of acceptable [what...] sequences
     if kind == "boot":
+        # one line for a name: 'added' if it is live, else nothing or added+expired.  Several lines for a
+        # name (all delivered in one reactor turn, the name unknown before): the same per line, with the
+        # freedom of the bursts for a stale line that a later line supersedes
+        by = {}
         for ev in arg:
-            live = ev["exp"] is None or ev["exp"] > model.now
-            expect[ev["name"]] = [["added"]] if live else [[], ["added", "expired"]]
+            by.setdefault(ev["name"], []).append(ev)
+        for nm, evs in by.items():
+            expect[nm] = burst_acceptable(evs, False, model.now)
     elif kind == "ev":
         err = arg["addr"] == M.ERROR
         was, now_live = trans
